@@ -183,7 +183,7 @@ func runFields(c *hx.Ctx, g *gen, text string) {
 		}
 	}
 	c.Count("fields:round-trip-differs")
-	c.Violation(line, cls, fmt.Sprintf("fields=%s planned=%s shipped=%s reparsed=%s (%v)", strconv.Quote(text), d1, strconv.Quote(printed), d2, err))
+	c.Violation(line, cls, fmt.Sprintf("fields=%s planned=%s shipped=%s reparsed=%s (%s)", strconv.Quote(text), d1, strconv.Quote(printed), d2, errStr(err)))
 }
 
 // fieldFeatures: a known defect a field expression carries, for failures that cannot be localised.
@@ -461,7 +461,7 @@ func runSource(c *hx.Ctx, g *gen) {
 			continue
 		}
 		c.Count("source:round-trip-differs")
-		c.Violation(line, sourceClass(s, back, perr), fmt.Sprintf("source planned=%s shipped=%s reparsed=%s (%v)", want, strconv.Quote(printed), have, perr))
+		c.Violation(line, sourceClass(s, back, perr), fmt.Sprintf("source planned=%s shipped=%s reparsed=%s (%s)", oneLine(want), strconv.Quote(printed), oneLine(have), errStr(perr)))
 	}
 }
 
